@@ -53,6 +53,11 @@ func translate(pkgPatterns []string, outRootDir string, modDir string,
 			if !ignoreErrors {
 				continue
 			}
+			if f.PkgPath == "" {
+				// the package could not even be loaded, so there is no
+				// partial translation (and no output path) to write
+				continue
+			}
 		}
 		outFile := path.Join(outRootDir,
 			coq.ImportToPath(f.PkgPath, f.GoPackage))
